@@ -50,6 +50,8 @@ type World struct {
 	protectedFields map[string]bool
 	allFuncs        map[string]*ssa.Function
 	opqSig          map[string]string
+	opaques         map[string]*opaqueDef
+	mapKeyTypes     map[string]types.Type
 }
 
 func shortPkg(path string) string {
@@ -66,7 +68,7 @@ func LoadWorld(repo string, specDirs []string) (*World, error) {
 	w := &World{repo: repo, declared: map[string]bool{}, contracts: map[string]*Contract{}, preds: map[string]*Pred{},
 		ufs: map[string]*UF{}, ghosts: map[string]*GhostField{}, heapSort: map[string]string{}, funcs: map[string]*ssa.Function{},
 		funcKeys: map[*ssa.Function]string{}, modsets: map[*ssa.Function]map[string]bool{}, spkgs: map[string]*ssa.Package{},
-		tpkgs: map[string]*types.Package{}, typeIDs: map[string]int{}, strLits: map[string]bool{}, globalPkg: map[*Clause]string{}, opqSig: map[string]string{}}
+		tpkgs: map[string]*types.Package{}, typeIDs: map[string]int{}, strLits: map[string]bool{}, globalPkg: map[*Clause]string{}, opqSig: map[string]string{}, opaques: map[string]*opaqueDef{}}
 	cfg := &packages.Config{Mode: packages.LoadAllSyntax, Dir: repo, BuildFlags: []string{"-tags=verif"}, Tests: false}
 	pkgs, err := packages.Load(cfg, ".", "./internal/syntax", "./internal/tree", "./internal/trace", "./types", "./header")
 	if err != nil {
@@ -88,6 +90,12 @@ func LoadWorld(repo string, specDirs []string) (*World, error) {
 		}
 		w.spkgs[shortPkg(sp.Pkg.Path())] = sp
 		_ = i
+	}
+	// module packages take precedence over dependencies with the same last path element (regexp/syntax)
+	for _, p := range pkgs {
+		if p.Types != nil {
+			w.tpkgs[shortPkg(p.Types.Path())] = p.Types
+		}
 	}
 	packages.Visit(pkgs, nil, func(p *packages.Package) {
 		if p.Types != nil {
@@ -450,6 +458,10 @@ func (w *World) mapKeys(mt *types.Map) (dom, val, card string, ks, vs string) {
 	ks, vs = w.sortOf(mt.Key()), w.sortOf(mt.Elem())
 	n := typeName(mt)
 	dom, val, card = "Mdom:"+n, "Mval:"+n, "Mcard:"+n
+	if w.mapKeyTypes == nil {
+		w.mapKeyTypes = map[string]types.Type{}
+	}
+	w.mapKeyTypes[n] = mt.Key()
 	w.heapSort[dom] = fmt.Sprintf("(Array Int (Array %s Bool))", ks)
 	w.heapSort[val] = fmt.Sprintf("(Array Int (Array %s %s))", ks, vs)
 	w.heapSort[card] = "(Array Int Int)"
